@@ -279,6 +279,20 @@ func truncStreams(c *ev.Ctx) []tstream {
 			add(tstream{ID: fmt.Sprintf("genlzma-%d", i), Format: "lzma", B: stream, Content: cont, Feat: fmt.Sprintf("generated mode%d", mode)})
 		}
 	}
+	// empty content in every termination mode (size 0 with and without end marker, marker only),
+	// and one-byte content: the shortest streams there are
+	for mode := 0; mode < 3; mode++ {
+		for n := 0; n < 2; n++ {
+			k := lzCase{LC: 3, LP: 0, PB: 2, DictCap: 4096, BufSize: 4096, Mode: mode, Part: "one"}
+			data := []byte("x")[:n]
+			if sink, dev, pn := runLZWriter(k, data); dev == "" && pn == nil {
+				add(tstream{ID: fmt.Sprintf("liblzma-tiny-%d-%d", mode, n), Format: "lzma", B: sink.Buf, Content: data, Feat: fmt.Sprintf("library mode%d, %d content bytes", mode, n)})
+			}
+			if stream, cont, _ := ref.GenAlone(prng.New(c.Seed, 54, uint64(mode), uint64(n)), mode, n); len(stream) < 200 {
+				add(tstream{ID: fmt.Sprintf("genlzma-tiny-%d-%d", mode, n), Format: "lzma", B: stream, Content: cont, Feat: fmt.Sprintf("generated mode%d, %d operations", mode, n)})
+			}
+		}
+	}
 	// multi-stream files
 	for i := 0; i < nsmall/2+1; i++ {
 		var b, content []byte
